@@ -315,6 +315,10 @@ func c10Extremes() []string {
 				"a == \""+body+"\" and (", "a == \""+body+"\"", "a[\""+body+"\"] is empty", "\"/a/"+body+"\" == \""+body+"\"", "any a as x { x == \""+body+"\"", "a == \""+body+"\\q\"", "a == \""+body+"\xff\"")
 		}
 	}
+	// accepted by the unlimited parser at a cost of 10^5 .. 10^7 steps: creation (which sets no budget of its own) accepts them too
+	for _, depth := range []int{5, 6, 7} {
+		out = append(out, rep("(", depth)+"a == 1"+rep(")", depth), rep("(", depth)+"a == 1"+rep(")", depth-1))
+	}
 	out = append(out, "a"+rep(".a", 2000)+" == 1", "\""+rep("/a", 2000)+"\" == 1", "a"+rep("[\"a\"]", 1000)+" is empty", rep("not ", 500)+"a == 1", "a == 1"+rep(" and a == 1", 300), "a == 1"+rep(" or a != 1", 300))
 	return out
 }
